@@ -7,6 +7,8 @@
 
 #include "lltdAutomata.h"
 
+#include <stddef.h>
+
 #include "lltdEndian.h"
 #include "lltdPort.h"
 
@@ -402,16 +404,20 @@ void session_table_clear(session_table *table) {
     table->all_complete = true;
 }
 
-int derive_session_event(const void *frame, session_table *table, const uint8_t *our_mac) {
+int derive_session_event(const void *frame, size_t frame_len, session_table *table, const uint8_t *our_mac) {
     if (!frame) {
         return -1;
     }
 
 #ifdef LLTD_TESTING
+    (void)frame_len;
     (void)table;
     (void)our_mac;
     return sess_discover_noack;
 #else
+    if (frame_len < sizeof(lltd_demultiplex_header_t)) {
+        return -1;
+    }
     const lltd_demultiplex_header_t *header = (const lltd_demultiplex_header_t *)frame;
 
     if (header->opcode == opcode_reset) {
@@ -428,6 +434,10 @@ int derive_session_event(const void *frame, session_table *table, const uint8_t 
 
     if (header->opcode == opcode_discover) {
         session_entry *existing = NULL;
+        const size_t stations_offset = sizeof(*header) + offsetof(lltd_discover_upper_header_t, stationList);
+        if (frame_len < stations_offset) {
+            return -1;
+        }
         const lltd_discover_upper_header_t *disc_header =
             (const lltd_discover_upper_header_t *)(header + 1);
         uint16_t generation = lltd_ntohs(disc_header->generation);
@@ -444,6 +454,11 @@ int derive_session_event(const void *frame, session_table *table, const uint8_t 
                 acking = true;
             } else {
                 const ethernet_address_t *stations = disc_header->stationList;
+                /* scan only as many addresses as the received frame holds */
+                size_t held = (frame_len - stations_offset) / sizeof(stations[0]);
+                if (station_count > held) {
+                    station_count = (uint16_t)held;
+                }
                 for (uint16_t i = 0; i < station_count; i++) {
                     if (mac_equal(stations[i].a, our_mac)) {
                         acking = true;
